@@ -51,8 +51,8 @@ type engAct struct {
 }
 
 // the last names differ only in the (non-minimal) encoding of a segment number: Component.String() prints both as seg=1
-var engNames = []string{"/a", "/a/b", "/a/b/c", "/d", "/d/50=%01"}
-var engDNames = []string{"/a", "/a/b", "/a/b/c", "/a/b/c/x", "/d", "/d/y", "/e", "/d/50=%01", "/d/50=%00%01"}
+var engNames = []string{"/a", "/a/b", "/a/b/c", "/d", "/d/50=%01", "/d/32=q"}
+var engDNames = []string{"/a", "/a/b", "/a/b/c", "/a/b/c/x", "/d", "/d/y", "/e", "/d/50=%01", "/d/50=%00%01", "/d/32=q", "/d/32%3Dq"} // (last: ONE generic component whose bytes read "32=q")
 
 // data wires and their digest ids: id = 2*index(dname) + k, k in {1,2}
 type engData struct {
